@@ -5,6 +5,8 @@ import Model.C02.Ecdsa
 import Model.C02.Rfc6979
 import Model.C02.Der
 import Model.C02.Bms
+import Model.C02.BmsSig
+import Model.C02.Api
 import Generated.Ecdsa
 import Generated.VarInt
 open Btc
@@ -62,13 +64,14 @@ def ecdsaOp : List String → Option String
     let r ← parseInt? r
     let s ← parseInt? s
     let o := EC.ops C
-    if m.length ≠ H.hlen ∨ ¬ pubKeyOk C Q then
-      -- a digest of the wrong size / a key that is no point: ValueError, hence False;
-      -- but an invalid Sig is refused first, with the same answer
-      pure "ok False False"
-    else
-      let c := Rfc6979.challenge o.n m
-      pure s!"ok {pyBool (Ecdsa.verifyFull o (isXCoord C) c Q r s)} {pyBool (Ecdsa.verify o c Q r s)}"
+    -- the entry model (a digest of the wrong size / a key that is no point / an invalid Sig: False), and beside it
+    -- the SEC 1 predicate under the same screens
+    let c := Rfc6979.challenge o.n m
+    let sec1 := if m.length ≠ H.hlen ∨ ¬ pubKeyOk C Q then false else Ecdsa.verify o c Q r s
+    pure s!"ok {pyBool (Ecdsa.verifyApi C H.hlen m Q r s)} {pyBool sec1}"
+  | ["ecdsa.verifyder", hf, m, qx, qy, sig] => do
+    let H ← hashSpec? hf
+    pure s!"ok {pyBool (Ecdsa.verifyDer H.hlen (← fromHex? m) (← parseInt? qx, ← parseInt? qy) (← fromHex? sig))}"
   | ["ecdsa.challenge", C, hf, m] => do
     let C ← EC.curveOfToken C
     let H ← hashSpec? hf
@@ -146,6 +149,12 @@ def ecdsaOp : List String → Option String
         | .error e => errS e
   | _ => none
 
+def addrType? : String → Option Bms.AddrType
+  | "p2pkh" => some .p2pkh | "p2sh" => some .p2sh | "p2wpkh" => some .p2wpkh | _ => none
+
+/-- bms on secp256k1: SEC octets of a 32-octet field, the real hash160 -/
+def bmsEnv : Bms.Env EC.Point := ⟨Bms.secSer 32, hash160⟩
+
 def derOp : List String → Option String
   | ["der.parse", strict, hex] => do
     pure <| match Der.parse (← bool? strict) (← fromHex? hex) with
@@ -167,6 +176,18 @@ def derOp : List String → Option String
     pure <| match Bms.flag (← kid.toNat?) (← bool? comp) t with
       | some rf => s!"ok {rf}"
       | none => "err value"
+  | "bms.sign" :: mm :: q :: comp :: t :: payload :: _ => do
+    let addr : Option Bms.Addr ← (if t == "-" then some none else do
+      pure (some (← addrType? t, ← fromHex? payload)))
+    pure <| renderOut (fun (v : Nat × Int × Int) => s!"{v.1} {v.2.1} {v.2.2}")
+      (Bms.sign (EC.ops EC.secp256k1) bmsEnv ⟨hmacSha256, 32⟩ (← fromHex? mm) (← parseInt? q) (← bool? comp) addr fuel)
+  | "bms.verify" :: mm :: t :: payload :: rf :: r :: s :: _ => do
+    let mm ← fromHex? mm
+    if mm.length ≠ 32 then none else
+    pure <| match Bms.assertAsValid (EC.ops EC.secp256k1) bmsEnv (isXCoord EC.secp256k1)
+        (Rfc6979.challenge EC.secp256k1.n mm) (← addrType? t, ← fromHex? payload) (← rf.toNat?) (← parseInt? r) (← parseInt? s) with
+      | .ok _ => "ok"
+      | .error e => errS e
   | ["bms.read", rf, t] => do
     let t ← (match t with | "p2pkh" => some Bms.AddrType.p2pkh | "p2sh" => some .p2sh | "p2wpkh" => some .p2wpkh | _ => none)
     let rf ← rf.toNat?
